@@ -9,10 +9,14 @@ from .agree import agrees, klass
 from .pool import parse_block, pmap
 
 
+# the operators ^ and & are bound to POWER and CONCAT by the evaluator
+DIRECT_ALIAS = {'OP_POW': 'POWER', 'OP_CONCAT': 'CONCAT'}
+
+
 def direct_call(f, args, spelling='native'):
     L = xl.lib()
     try:
-        fn = L.xl.FUNCTIONS[f]
+        fn = L.xl.FUNCTIONS[DIRECT_ALIAS.get(f, f)]
     except KeyError:
         return {'t': 'exc', 'cls': 'Unregistered', 'msg': f}
     try:
